@@ -283,3 +283,73 @@ theorem mapM_some {α β : Type} (f : α → Option β) (g : α → β) (l : Lis
     simp [List.mapM_cons, h1, h2]
 
 end KinModel.Conv
+
+namespace KinModel.Conv
+
+theorem foldl_ainsert_nodup {α : Type} (l acc : List (String × α)) (hn : nodupKeys l = true)
+    (hacc : ∀ kv ∈ l, alookup kv.1 acc = none) :
+    l.foldl (fun acc (kv : String × α) => ainsert kv.1 kv.2 acc) acc = acc ++ l := by
+  induction l generalizing acc with
+  | nil => simp
+  | cons d rest ih =>
+    obtain ⟨k, v⟩ := d
+    simp only [nodupKeys, Bool.and_eq_true, Option.isNone_iff_eq_none] at hn
+    simp only [List.foldl_cons]
+    rw [ainsert_fresh k v acc (hacc (k, v) (by simp))]
+    rw [ih _ hn.2]
+    · simp
+    · intro kv hkv
+      apply alookup_append_none
+      · exact hacc kv (by simp [hkv])
+      · obtain ⟨k2, v2⟩ := kv
+        by_cases hk : k2 = k
+        · subst hk
+          have hnone : alookup k2 rest = none := hn.1
+          exfalso
+          clear ih hacc hn
+          induction rest with
+          | nil => simp at hkv
+          | cons x xs ihx =>
+            obtain ⟨kx, vx⟩ := x
+            simp only [alookup] at hnone
+            split at hnone
+            · simp at hnone
+            · rename_i hne
+              simp only [List.mem_cons, Prod.mk.injEq] at hkv
+              rcases hkv with ⟨hk, _⟩ | hkv
+              · exact hne hk
+              · exact ihx hkv hnone
+        · simp [alookup, hk]
+
+/-- a list with distinct keys is what the Go map built from it holds -/
+theorem dedupLast_nodup {α : Type} (l : List (String × α)) (hn : nodupKeys l = true) : dedupLast l = l := by
+  have := foldl_ainsert_nodup l [] hn (by intro kv _; rfl)
+  simpa [dedupLast] using this
+
+theorem nodupKeys_map {α β : Type} (g : α → β) (l : List (String × α)) :
+    nodupKeys (l.map (fun kv => (kv.1, g kv.2))) = nodupKeys l := by
+  induction l with
+  | nil => rfl
+  | cons kv rest ih =>
+    obtain ⟨k, v⟩ := kv
+    simp only [List.map_cons, nodupKeys, ih]
+    congr 1
+    cases h : alookup k rest with
+    | none => simp [alookup_map_none k g rest h]
+    | some x =>
+      have : (alookup k (rest.map (fun kv => (kv.1, g kv.2)))).isSome = true := by
+        clear ih
+        induction rest with
+        | nil => simp [alookup] at h
+        | cons y ys ihy =>
+          obtain ⟨ky, vy⟩ := y
+          simp only [alookup] at h
+          by_cases hk : k = ky
+          · simp [alookup, hk]
+          · simp only [hk, if_false] at h
+            simp [alookup, hk, ihy h]
+      cases h2 : alookup k (rest.map (fun kv => (kv.1, g kv.2))) with
+      | none => simp [h2] at this
+      | some y => simp
+
+end KinModel.Conv
